@@ -79,7 +79,7 @@ class RealRun:
         self.script_error = None
 
 
-def run_real(sc, chooser, max_steps=6000, settle=None, extra=None):
+def run_real(sc, chooser, max_steps=6000, settle=None, extra=None, live=False):
     """run the scenario on the real ActiveObject under dsched; returns RealRun"""
     rr = RealRun()
     saved_cap = mhsm.HsmWithQueues.QUEUE_SIZE
@@ -113,6 +113,12 @@ def run_real(sc, chooser, max_steps=6000, settle=None, extra=None):
                 # capacity from one place (HsmWithQueues.QUEUE_SIZE = sc.cap here), whatever the subclass says
                 QUEUE_SIZE = sc.cap + 2
             ao = SubAO(name="C")
+            if live:
+                # an instrumented chart with live spy output on: the output loop at the end of every step is a place where other
+                # threads run (one scheduling point per line handed to the callback)
+                s1 = mhsm.spy_on(s1)
+                ao.live_spy = True
+                ao.register_live_spy_callback(lambda line: sched.yield_point("live.spy"))
             sched.name_obj(ao.locking_deque.deque, "dq")
             sched.name_obj(ao.locking_deque.locking_queue, "tok")
             sched.name_obj(ao.activeobject_task_event, "run")
@@ -174,8 +180,8 @@ def modelled_steps(rr, nposters):
     out = []
     for name, label, result, enabled, _now in rr.trace:
         tid = tid_of(name)
-        if tid is None or label == "begin":
-            continue
+        if tid is None or label == "begin" or label.split(".")[0] not in ("dq", "tok", "run", "fab"):
+            continue        # (live output: the callback's own scheduling points and the writer's queue are not part of the model)
         en = sorted(t for t in (tid_of(n) for n in enabled) if t is not None)
         out.append((tid, real_label(label, result), en))
     return out
@@ -318,6 +324,112 @@ def explore(run, focus, n_random, escalate=False):
     if (escalate or run.disagreements) and not run.violations:
         # the tie or an obligation is broken and random schedules showed no failing input: search systematically
         bounded_preemption_search(run, focus, budget_s=240 if run.tier == "quick" else 1500)
+
+
+def explore_live(run, focus, n):
+    """posters racing the consumer of an INSTRUMENTED active object with live spy output on (the posts write their own spy
+    lines while the consumer hands the lines of the step it finished to the live callback); the same oracles and the same
+    replay on the Lean model as the plain stream"""
+    rng = run.rng
+    done = []
+    for _ in range(n):
+        sc = gen_scenario(rng, caps=(4, 500), max_posters=2, max_posts=3, self_rate=0.2)
+        seed = rng.randrange(1 << 30)
+        r2 = random.Random(seed)
+        base = dsched.pct_chooser(r2, depth=r2.randint(1, 3), est_len=200) if r2.random() < 0.4 else dsched.random_chooser(r2)
+        rr = run_real(sc, fair_suffix(base, 2500), max_steps=12000, live=True)
+        cj = {"scenario": sc.to_json(), "chooser": "live", "seed": seed, "live": True, "schedule": [e[0] for e in rr.trace]}
+        run.count("instrumented consumer with live spy output")
+        oracle(run, focus if focus in ("C04", "C05", "C16") else "C04", sc, rr, cj)
+        if focus == "C07" and rr.errors:
+            run.violate("C07/thread-error", "a thread died: %s" % rr.errors[:2], cj)
+        run.case(cj, nontrivial=True)
+        done.append((sc, rr, cj))
+    lines = [sc.encode([t for t, _, _ in modelled_steps(rr, len(sc.progs))], refl=1) for sc, rr, _ in done]
+    outs = leanrun.run_driver(lines)
+    for (sc, rr, cj), out in zip(done, outs):
+        ok, diff, final = compare(sc, rr, out=out)
+        run.traces_validated += 1
+        if not ok:
+            run.disagree("LockingDeque/consumer primitives under the same schedule (instrumented, live spy)", cj, diff, None)
+
+
+def explore_fabric_stop(run, n):
+    """C13 'stop() halts every active object at its next wake-up': posters, the consumer and a thread that calls
+    ActiveFabric().stop(), all interleavings; the recorded schedule is replayed on the Lean system `Conc.LDFab` (family `ldfab`,
+    step 500 = the fabric flag goes down) and an implementation-side oracle looks at every wake-up after stop() returned"""
+    rng = run.rng
+    done = []
+    for _ in range(n):
+        sc = gen_scenario(rng, caps=(3, 4, 500), max_posters=2, max_posts=3, self_rate=0.15)
+        seed = rng.randrange(1 << 30)
+        r2 = random.Random(seed)
+        base = dsched.pct_chooser(r2, depth=r2.randint(1, 3), est_len=150) if r2.random() < 0.5 else dsched.random_chooser(r2)
+        info = {}
+
+        def extra(sched, ao):
+            def stopper():
+                sched.yield_point("call.fabstop")
+                ao.fabric.stop()
+                info["stop_at"] = len(sched.trace)
+            sched.spawn(stopper, (), name="S0")
+        rr = run_real(sc, fair_suffix(base, 1500), max_steps=8000, extra=extra)
+        trace = rr.trace
+        cj = {"what": "fabric-stop", "scenario": sc.to_json(), "seed": seed, "schedule": [e[0] for e in trace]}
+        run.count("fabric stopped while posters and the consumer run")
+        errs = [e for e in rr.errors if not e.startswith("leaked")]
+        if errs:
+            run.violate("C13/thread-error", "a thread died: %s" % errs[:2], cj)
+        at = info.get("stop_at")
+        if at is None:
+            if rr.outcome != "bound":
+                run.violate("C13/call-never-returns", "ActiveFabric().stop() did not return", cj)
+        else:
+            woke = None
+            for i, e in enumerate(trace):
+                if e[0] == "C" and e[1] == "tok.get":
+                    woke = i
+                if e[0] == "C" and e[1] == "dq.popleft" and woke is not None and woke >= at:
+                    run.violate("C13/active-object-runs-after-fabric-stop", "the active object woke up after ActiveFabric().stop() had returned "
+                                "and still ran a run-to-completion step (dispatched: %s)" % rr.dispatched[-3:], cj)
+                    break
+        # the schedule in the model's terms
+        steps, stopped = [], False
+        for name, label, result, enabled, _now in trace:
+            if name == "S0":
+                if label == "fab.clear":        # the primitive of ActiveFabric().stop() that lowers the flag
+                    en = sorted([t for t in (tid_of(nm) for nm in enabled) if t is not None] + [500])
+                    steps.append((500, "fabstop", en))
+                    stopped = True
+                continue
+            tid = tid_of(name)
+            if tid is None or label == "begin":
+                continue
+            if tid == 0 and label == "run.clear":
+                continue        # the model lowers the run flag in the step that sees the fabric flag down (only the consumer reads it here)
+            en = sorted([t for t in (tid_of(nm) for nm in enabled) if t is not None] + ([500] if (not stopped and "S0" in enabled) else []))
+            steps.append((tid, real_label(label, result), en))
+        run.case(cj, nontrivial=True)
+        done.append((sc, rr, cj, steps))
+    lines = [sc.encode([t for t, _, _ in steps]).replace("ld ", "ldfab ", 1) for sc, _, _, steps in done]
+    outs = leanrun.run_driver(lines)
+    for (sc, rr, cj, steps), out in zip(done, outs):
+        run.traces_validated += 1
+        body, final = out.split(" || ")
+        msteps = [x for x in body.split(" | ") if x]
+        diff = None
+        for i, (tid, lbl, en) in enumerate(steps):
+            want = "%d:%s:%s" % (tid, lbl, ",".join(str(x) for x in en))
+            if i >= len(msteps) or msteps[i] != want:
+                diff = "step %d: implementation %s, model %s" % (i, want, msteps[i] if i < len(msteps) else None)
+                break
+        if diff is None:
+            mf = dict(kv.split("=", 1) for kv in final.split(" "))
+            rf = rr.final
+            if mf["dq"] != ",".join(rf["dq"]) or int(mf["tok"]) != rf["tok"] or mf["disp"] != ",".join(rr.dispatched):
+                diff = "final state: implementation dq=%s tok=%s disp=%s, model %s" % (rf["dq"], rf["tok"], rr.dispatched, final)
+        if diff:
+            run.disagree("posters / consumer / fabric stop under the same schedule (family ldfab)", cj, diff, None)
 
 
 def explore_posters_only(run, focus, n):
@@ -492,6 +604,9 @@ def bounded_preemption_search(run, focus, budget_s=240, max_preempts=2):
 
 def replay(case):
     cc = case.get("case", case)
+    if cc.get("what") == "fabric-stop":
+        print("re-run with the recorded VERIF_SEED; scenario", cc["scenario"], "chooser seed", cc["seed"])
+        return 0
     if cc.get("what") == "clear-race":
         print("re-run with the recorded VERIF_SEED; scenario", cc["scenario"], "clears", cc["clears"], "chooser seed", cc["seed"])
         return 0
